@@ -102,7 +102,7 @@ theorem sendToSession_did_aux (w w' : World δ) (S : Session δ) (ev : Event δ)
     (h : sendToSession w S.sid sid (stamp S.sid ev) = .done w' ok) : Did w S ev w' ok := by
   unfold sendToSession at h
   split at h
-  · cases h
+  · cases h; exact .err _ (Or.inl rfl)
   · rename_i T hl
     split at h
     · cases h; exact .err _ (Or.inl rfl)
@@ -120,7 +120,7 @@ theorem C15_route_did (w w' : World δ) (S S' : Session δ) (target : Str) (ev :
     · cases h; exact .int
     · split at h
       · split at h
-        · cases h
+        · cases h; exact .err _ (Or.inl rfl)
         · exact sendToSession_did_aux w w' S ev _ ok h
       · split at h
         · split at h
@@ -264,10 +264,13 @@ theorem C15 : C15_full := ⟨C15a, C15_targets, C15b, C15c, C15d⟩
 section
 variable {δ : Type}
 
-/-- known defect P9 (belongs to C12): a well-formed `#_scxml_<n>` for an unregistered `n` panics -/
-theorem C15_unknown_session_panics (w : World δ) (S : Session δ) (n : Nat) (ev : Event δ)
+/-- P9 (belonged to C12; repaired by /repo commit 9d6cb1f): a well-formed `#_scxml_<n>` for an
+unregistered `n` used to panic in `todo!()`; now the send fails with `error.communication` on the
+sender's internal queue, as the Recommendation says -/
+theorem C15_unknown_session_error (w : World δ) (S : Session δ) (n : Nat) (ev : Event δ)
     (hn : n < 4294967296) (hl : lookup w n = none) :
-    routeSend w S (location n) ev = .panic .unknownSession := by
+    routeSend w S (location n) ev =
+      .done (enqInt w S.sid (errorCommunication (stamp S.sid ev))) false := by
   have h1 : location n ≠ [] := by simp [location, pfxSession]
   have h2 : location n ≠ tInternal := by simp [location, pfxSession, tInternal]
   have h3 : location n ≠ tParent := by simp [location, pfxSession, tParent]
@@ -276,27 +279,27 @@ theorem C15_unknown_session_panics (w : World δ) (S : Session δ) (n : Nat) (ev
   have h5 : (location n).drop pfxSession.length = showNat n := by simp [location]
   unfold routeSend
   simp only [h1, h2, h3, h4, h5, if_false, if_true, parseU32_showNat n hn, sendToSession, hl]
-#assert_axioms C15_unknown_session_panics
+#assert_axioms C15_unknown_session_error
 
-/-- known defect P9 (belongs to C12): `#_parent` in a session without parent panics -/
-theorem C15_no_parent_panics (w : World δ) (S : Session δ) (ev : Event δ) (hp : S.parent = none) :
-    routeSend w S tParent ev = .panic .noParent := by
+/-- P9 (belonged to C12; repaired by /repo commit bcf85d6): `#_parent` in a session without
+parent used to panic in `unwrap()`; now the send fails with `error.communication` -/
+theorem C15_no_parent_error (w : World δ) (S : Session δ) (ev : Event δ) (hp : S.parent = none) :
+    routeSend w S tParent ev =
+      .done (enqInt w S.sid (errorCommunication (stamp S.sid ev))) false := by
   have h1 : tParent ≠ [] := by decide
   have h2 : tParent ≠ tInternal := by decide
   unfold routeSend
   simp only [h1, h2, if_false, if_true, hp]
-#assert_axioms C15_no_parent_panics
+#assert_axioms C15_no_parent_error
 
-/-- the processor never panics when the session table contains every id it is asked for and
-the sender has a parent whenever it says `#_parent` -/
-theorem C15_no_panic_partial (w : World δ) (S : Session δ) (target : Str) (ev : Event δ)
-    (hall : ∀ n, (lookup w n).isSome = true) (hp : target = tParent → S.parent.isSome = true) :
+/-- the processor never panics: for every world, sender, target text and event -/
+theorem C15_no_panic (w : World δ) (S : Session δ) (target : Str) (ev : Event δ) :
     ∃ w' ok, routeSend w S target ev = .done w' ok := by
   have hs : ∀ sid e, ∃ w' ok, sendToSession w S.sid sid e = Outcome.done (δ := δ) w' ok := by
     intro sid e
     unfold sendToSession
     cases hl : lookup w sid with
-    | none => have := hall sid; simp [hl] at this
+    | none => exact ⟨_, _, rfl⟩
     | some T => simp only; split <;> exact ⟨_, _, rfl⟩
   unfold routeSend
   simp only
@@ -305,9 +308,8 @@ theorem C15_no_panic_partial (w : World δ) (S : Session δ) (target : Str) (ev 
   · split
     · exact ⟨_, _, rfl⟩
     · split
-      · rename_i ht
-        cases hpar : S.parent with
-        | none => have := hp ht; simp [hpar] at this
+      · cases hpar : S.parent with
+        | none => exact ⟨_, _, rfl⟩
         | some p => exact hs _ _
       · split
         · split
@@ -318,7 +320,7 @@ theorem C15_no_panic_partial (w : World δ) (S : Session δ) (target : Str) (ev 
             · exact ⟨_, _, rfl⟩
             · exact hs _ _
           · exact ⟨_, _, rfl⟩
-#assert_axioms C15_no_panic_partial
+#assert_axioms C15_no_panic
 
 /-- quirk: after a failed routing `SendParameters::execute` adds a second error event
 (`error.execution`) behind the processor's `error.communication` / `error.execution` -/
@@ -443,9 +445,10 @@ example : parseU32 [43, 51] = some 3 ∧ parseU32 [48, 48, 51] = some 3 ∧ pars
 example : showNat 0 = [48] ∧ showNat 4711 = [52, 55, 49, 49] := by decide
 -- reserved invoke ids
 example : reservedInvokeId [112, 97, 114, 101, 110, 116] = true ∧ reservedInvokeId [99] = false := by decide
--- unknown session: panic; malformed session id: error.communication; foreign scheme: error.execution
+-- unknown session and malformed session id: error.communication; foreign scheme: error.execution
 example : (match routeSend w0 (mkS 3 none none []) (pfxSession ++ [57]) ev0 with
-    | .panic s => some s | _ => none) = some .unknownSession := by decide
+    | .done w' ok => (ok, (lookup w' 3).map (fun s => s.intQ.map (·.name)))
+    | .panic _ => (true, none)) = (false, some [errComm]) := by decide
 example : (match routeSend w0 (mkS 3 none none []) (pfxSession ++ [120]) ev0 with
     | .done w' ok => (ok, (lookup w' 3).map (fun s => s.intQ.map (·.name)))
     | .panic _ => (true, none)) = (false, some [errComm]) := by decide
